@@ -248,6 +248,29 @@ func (c *client) ping(d time.Duration) bool {
 	return ok
 }
 
+// pingAfterLoad is ping for a client that has just flooded the server: its ping waits behind everything it sent, which
+// the server may take a while to work off (race detector, loaded machine).  The client is unserved only when the answer
+// is not there and nothing at all has reached it for the length of patience - or after two minutes.
+func (c *client) pingAfterLoad() bool {
+	r := rid()
+	if err := c.send(&hagallpb.Request{Type: hagallpb.MsgType_MSG_TYPE_PING_REQUEST, Timestamp: now(), RequestId: r}); err != nil {
+		return false
+	}
+	seen := func() int { c.mu.Lock(); defer c.mu.Unlock(); return len(c.got) }
+	last, lastAt, start := seen(), time.Now(), time.Now()
+	for time.Since(start) < 2*time.Minute {
+		if _, ok := c.waitFor(hagallpb.MsgType_MSG_TYPE_PING_RESPONSE, 200*time.Millisecond, answers(r)); ok {
+			return true
+		}
+		if n := seen(); n != last {
+			last, lastAt = n, time.Now()
+		} else if time.Since(lastAt) > patience {
+			return false
+		}
+	}
+	return false
+}
+
 func (c *client) addEntity() (uint32, bool) {
 	r := rid()
 	c.send(&hagallpb.EntityAddRequest{Type: hagallpb.MsgType_MSG_TYPE_ENTITY_ADD_REQUEST, Timestamp: now(), RequestId: r, Pose: &hagallpb.Pose{Px: 1}})
@@ -1112,8 +1135,8 @@ func scenarioConcurrent(seed int64, idle, frame time.Duration) *verdict {
 	wg.Wait()
 	var v *verdict
 	for i, c := range clients {
-		if !c.ping(patience) {
-			v = &verdict{"request-never-completes", fmt.Sprintf("client %d of %d got no ping response within 4 s after the concurrent phase; server goroutines: %s", i, k, leftoverStacks())}
+		if !c.pingAfterLoad() {
+			v = &verdict{"request-never-completes", fmt.Sprintf("client %d of %d got no ping response after the concurrent phase although nothing had reached it for 10 s; server goroutines: %s", i, k, leftoverStacks())}
 			break
 		}
 	}
@@ -1211,8 +1234,8 @@ func scenarioShared(seed int64, idle, frame time.Duration) *verdict {
 	wg.Wait()
 	var v *verdict
 	for i, c := range append(readers, writer, comer) {
-		if !c.ping(patience) {
-			v = &verdict{"request-never-completes", fmt.Sprintf("client %d got no ping response within 4 s after the shared phase; server goroutines: %s", i, leftoverStacks())}
+		if !c.pingAfterLoad() {
+			v = &verdict{"request-never-completes", fmt.Sprintf("client %d got no ping response after the shared phase although nothing had reached it for 10 s; server goroutines: %s", i, leftoverStacks())}
 			break
 		}
 	}
